@@ -1,8 +1,8 @@
 (* C09 — arithmetic, comparisons and reductions act entry by entry, matched by key.
    Property theorems only: each is closed by [exact] of a lemma proved in Proofs/C09_*P.v and followed by
    Print Assumptions (parsed by the harness on every run).  The model (Model/C09_*.v) transcribes /repo as it is
-   today; where /repo violates the property the full statement is kept as a [Definition ..._full_statement], refuted by
-   a witness ([..._refuted]) and proved on the complement ([..._partial]) and for the repaired variant ([..._fixed]). *)
+   with fixes/C09/*.diff applied (switches fixed_D18, fixed_inplace_extra, fixed_D49, fixed_rsub, fixed_reduce = true);
+   the witnesses of the former behaviour stay in Proofs/C09_*P.v as lemmas about the switches at [false]. *)
 From Coq Require Import ZArith List String Bool Arith.
 Import ListNotations.
 From TD Require Import Model.Dual Model.C09_Align Model.C09_Shape Model.C09_Reduce Spec.C09_KeyWise Spec.C09_TorchReduce
@@ -15,104 +15,61 @@ Local Open Scope list_scope.
 
 (* same key set, ANY insertion / nesting order, any value type, any number of keys: the result holds, under every key,
    the pair (self[k], other[k]) — for the fused, the clamp and the python-loop variants, locked or not *)
-Theorem C09_binary_keywise : forall (V : Type) f closed (s o : @items V),
+Theorem C09_binary_keywise : forall (V : Type) fx f closed (s o : @items V),
   NoDup (keys_of s) -> NoDup (keys_of o) -> s <> [] -> same_keysb s o = true ->
-  exists r, binary_plan f closed s (OpTd o) DNone = Ok r /\ forall k, dget r k = spec_same s o k.
+  exists r, binary_plan fx f closed s (OpTd o) DNone = Ok r /\ forall k, dget r k = spec_same s o k.
 Proof. exact @binary_same_keys. Qed.
 Print Assumptions C09_binary_keywise.
 
-(* different key sets raise — full statement (false of /repo when `other` is empty: D49) *)
-Definition C09_binary_diff_keys_full_statement : Prop := forall (V : Type) f closed (s o : @items V),
-  NoDup (keys_of s) -> NoDup (keys_of o) -> same_keysb s o = false -> binary_plan f closed s (OpTd o) DNone = Raised.
-Theorem C09_binary_diff_keys_refuted :
-  exists (s : @items Z), s <> [] /\ same_keysb s [] = false /\
-    binary_plan Loop false s (OpTd []) DNone = Ok [] /\
-    binary_plan ForeachSwallow false s (OpTd []) DNone = Ok [("x", (1%Z, RUnchanged))].
-Proof. exact empty_other_refuted. Qed.
-Print Assumptions C09_binary_diff_keys_refuted.
-Theorem C09_binary_diff_keys_partial : forall (V : Type) f closed (s o : @items V),
-  NoDup (keys_of s) -> NoDup (keys_of o) -> o <> [] -> same_keysb s o = false ->
-  binary_plan f closed s (OpTd o) DNone = Raised.
+(* different key sets raise, an empty `other` included (D49 repaired: fixes/C09/D49.diff) *)
+Theorem C09_binary_diff_keys_raise : forall (V : Type) f closed (s o : @items V),
+  NoDup (keys_of s) -> NoDup (keys_of o) -> same_keysb s o = false ->
+  binary_plan fixed_D49 f closed s (OpTd o) DNone = Raised.
 Proof. exact @binary_diff_keys_raises. Qed.
-Print Assumptions C09_binary_diff_keys_partial.
+Print Assumptions C09_binary_diff_keys_raise.
 
 (* a scalar / tensor operand meets every entry of self *)
-Theorem C09_binary_scalar : forall (V : Type) f closed (s : @items V) d,
+Theorem C09_binary_scalar : forall (V : Type) fx f closed (s : @items V) d,
   NoDup (keys_of s) -> s <> [] ->
-  exists r, binary_plan f closed s OpScalar d = Ok r /\ forall k, dget r k = spec_scalar s k.
+  exists r, binary_plan fx f closed s OpScalar d = Ok r /\ forall k, dget r k = spec_scalar s k.
 Proof. exact @binary_scalar. Qed.
 Print Assumptions C09_binary_scalar.
 
-(* documented defaults: default=<value> gives the union, the missing side replaced by the value;
+(* documented defaults: default=<value> gives the union, the missing side replaced by the value (on a locked self too:
+   D48 repaired, the model's [closed] is now only the tensorclass case "no such field");
    default="intersection" the common keys only *)
-Theorem C09_binary_default_value : forall (V : Type) f (s o : @items V) (v : V),
+Theorem C09_binary_default_value : forall (V : Type) fx f (s o : @items V) (v : V),
   NoDup (keys_of s) -> NoDup (keys_of o) -> o <> [] ->
-  exists r, binary_plan f false s (OpTd o) (DVal v) = Ok r /\ forall k, dget r k = spec_default v s o k.
+  exists r, binary_plan fx f false s (OpTd o) (DVal v) = Ok r /\ forall k, dget r k = spec_default v s o k.
 Proof. exact @binary_default_value. Qed.
 Print Assumptions C09_binary_default_value.
-(* ... but not independently of the lock state (D48): a result that cannot take new keys raises *)
-Theorem C09_binary_default_lock_refuted :
-  exists (s o : @items Z) r, binary_plan Foreach false s (OpTd o) (DVal 0%Z) = Ok r /\
-    binary_plan Foreach true s (OpTd o) (DVal 0%Z) = Raised.
-Proof. exact default_closed_refuted. Qed.
-Print Assumptions C09_binary_default_lock_refuted.
 Theorem C09_binary_intersection : forall (V : Type) (s o : @items V) closed,
-  NoDup (keys_of s) -> NoDup (keys_of o) -> o <> [] ->
-  exists r, binary_plan Loop closed s (OpTd o) DInter = Ok r /\ forall k, dget r k = spec_inter s o k.
+  NoDup (keys_of s) -> NoDup (keys_of o) ->
+  exists r, binary_plan fixed_D49 Loop closed s (OpTd o) DInter = Ok r /\ forall k, dget r k = spec_inter s o k.
 Proof. exact @binary_intersection. Qed.
 Print Assumptions C09_binary_intersection.
 
-(* ------------------------------------------------------------------ in-place binary family *)
+(* ------------------------------------------------------------------ in-place binary family (D42 repaired) *)
 Theorem C09_inplace_keywise : forall (V : Type) f fixed (s o : @items V),
   NoDup (keys_of s) -> NoDup (keys_of o) -> s <> [] -> same_keysb s o = true ->
   exists r, inplace_plan f fixed s (OpTd o) = Ok r /\ forall k, dget r k = spec_same s o k.
 Proof. exact @inplace_same_keys. Qed.
 Print Assumptions C09_inplace_keywise.
-
-Definition C09_inplace_diff_keys_full_statement : Prop := forall (V : Type) f (s o : @items V),
-  NoDup (keys_of s) -> NoDup (keys_of o) -> same_keysb s o = false -> inplace_plan f false s (OpTd o) = Raised.
-(* D42: a key only `other` has is ignored *)
-Theorem C09_inplace_diff_keys_refuted :
-  exists (s o : @items Z) r, NoDup (keys_of s) /\ NoDup (keys_of o) /\ same_keysb s o = false /\
-    inplace_plan Foreach false s (OpTd o) = Ok r.
-Proof. exact inplace_extra_key_refuted. Qed.
-Print Assumptions C09_inplace_diff_keys_refuted.
-(* a key of self that `other` lacks raises *)
-Theorem C09_inplace_diff_keys_partial : forall (V : Type) f fixed (s o : @items V) k,
-  NoDup (keys_of o) -> In k (keys_of s) -> ~ In k (keys_of o) -> inplace_plan f fixed s (OpTd o) = Raised.
-Proof. exact @inplace_missing_key_raises. Qed.
-Print Assumptions C09_inplace_diff_keys_partial.
-(* with the suggested fix (length check in _values_list) the full statement holds *)
-Theorem C09_inplace_diff_keys_fixed : forall (V : Type) f (s o : @items V),
-  NoDup (keys_of s) -> NoDup (keys_of o) -> same_keysb s o = false -> inplace_plan f true s (OpTd o) = Raised.
+Theorem C09_inplace_diff_keys_raise : forall (V : Type) f (s o : @items V),
+  NoDup (keys_of s) -> NoDup (keys_of o) -> same_keysb s o = false ->
+  inplace_plan f fixed_inplace_extra s (OpTd o) = Raised.
 Proof. exact @inplace_fixed_diff_keys_raises. Qed.
-Print Assumptions C09_inplace_diff_keys_fixed.
+Print Assumptions C09_inplace_diff_keys_raise.
 
-(* ------------------------------------------------------------------ ternary family (lerp, addcdiv, addcmul, in-place) *)
-Definition C09_ternary_keywise_full_statement : Prop := forall (V : Type) (s o1 o2 : @items V),
+(* ------------------------------------------------------------------ ternary family (lerp, addcdiv, addcmul, in-place;
+   D18 repaired): operands are matched by key, for every insertion / nesting order *)
+Theorem C09_ternary_keywise : forall (V : Type) (s o1 o2 : @items V),
   NoDup (keys_of s) -> NoDup (keys_of o1) -> NoDup (keys_of o2) -> s <> [] ->
   same_keysb s o1 = true -> same_keysb s o2 = true ->
-  exists r, ternary_plan false s (OpTd o1) (OpTd o2) = Ok r /\ forall k, dget r k = spec_tern s o1 o2 k.
-(* D18: operands are paired by position *)
-Theorem C09_ternary_keywise_refuted :
-  exists (s o1 o2 : @items Z) r,
-    NoDup (keys_of s) /\ same_keysb s o1 = true /\ same_keysb s o2 = true /\
-    ternary_plan false s (OpTd o1) (OpTd o2) = Ok r /\ dget r "x" <> spec_tern s o1 o2 "x".
-Proof. exact ternary_positional_refuted. Qed.
-Print Assumptions C09_ternary_keywise_refuted.
-(* key-wise when the operands list their leaves in self's order *)
-Theorem C09_ternary_keywise_partial : forall (V : Type) (s o1 o2 : @items V),
-  NoDup (keys_of s) -> s <> [] -> keys_of o1 = keys_of s -> keys_of o2 = keys_of s ->
-  exists r, ternary_plan false s (OpTd o1) (OpTd o2) = Ok r /\ forall k, dget r k = spec_tern s o1 o2 k.
-Proof. exact @ternary_same_order. Qed.
-Print Assumptions C09_ternary_keywise_partial.
-(* with sorting_keys=keys (the suggested fix) the full statement holds, for every order *)
-Theorem C09_ternary_keywise_fixed : forall (V : Type) (s o1 o2 : @items V),
-  NoDup (keys_of s) -> NoDup (keys_of o1) -> NoDup (keys_of o2) -> s <> [] ->
-  same_keysb s o1 = true -> same_keysb s o2 = true ->
-  exists r, ternary_plan true s (OpTd o1) (OpTd o2) = Ok r /\ forall k, dget r k = spec_tern s o1 o2 k.
-Proof. exact @ternary_fixed_same_keys. Qed.
-Print Assumptions C09_ternary_keywise_fixed.
+  exists r, ternary_plan fixed_D18 fixed_inplace_extra s (OpTd o1) (OpTd o2) = Ok r /\
+            forall k, dget r k = spec_tern s o1 o2 k.
+Proof. intros V. exact (@ternary_fixed_same_keys V fixed_inplace_extra). Qed.
+Print Assumptions C09_ternary_keywise.
 
 (* ------------------------------------------------------------------ comparisons / __or__ / __xor__ (per nested node) *)
 (* same nested key structure (any depth, any order at every node): the leaf at every path is compared with the leaf
@@ -128,17 +85,10 @@ Theorem C09_compare_diff_keys_raise : forall (V : Type) (c1 c2 : list (string * 
 Proof. exact @compare_diff_keys_raises. Qed.
 Print Assumptions C09_compare_diff_keys_raise.
 
-(* ------------------------------------------------------------------ operator spellings *)
-Definition C09_operator_order_full_statement : Prop := forall d, order_ok false d = true.
-Theorem C09_operator_order_refuted : order_ok false DuRsub = false.       (* D40: other - td computes td - other *)
-Proof. exact dunder_rsub_refuted. Qed.
-Print Assumptions C09_operator_order_refuted.
-Theorem C09_operator_order_partial : forall d, d <> DuRsub -> order_ok false d = true.
-Proof. exact dunder_order_all_but_rsub. Qed.
-Print Assumptions C09_operator_order_partial.
-Theorem C09_operator_order_fixed : forall d, order_ok true d = true.
+(* ------------------------------------------------------------------ operator spellings (D40 repaired) *)
+Theorem C09_operator_order : forall d, order_ok fixed_rsub d = true.
 Proof. exact dunder_order_fixed. Qed.
-Print Assumptions C09_operator_order_fixed.
+Print Assumptions C09_operator_order.
 
 (* ------------------------------------------------------------------ broadcast against the batch dims from the left *)
 (* a tensor operand of shape s that expands to the batch shape B reaches torch, for a leaf of shape B ++ feat, as a
@@ -156,20 +106,20 @@ Theorem C09_broadcast_decision : forall (bs s B : shape),
 Proof. exact maybe_broadcast_tensor. Qed.
 Print Assumptions C09_broadcast_decision.
 
-(* ------------------------------------------------------------------ reductions *)
+(* ------------------------------------------------------------------ reductions (D43-D47 repaired) *)
 (* sum / nansum / mean / nanmean / std / var over an int or a tuple of ints, any keepdim, any rank: batch size and
    names are torch's reduction of the proxy over the normalised dims, which are also the dims every leaf is reduced on *)
-Theorem C09_reduce_bs : forall (bs : shape) (names : names_t) dim kd con zs nd,
+Theorem C09_reduce_bs : forall fx (bs : shape) (names : names_t) dim kd con zs nd,
   user_dims dim = Some zs -> sequence (map (norm_dim (List.length bs)) zs) = Some nd ->
-  cast_reduction bs names dim kd true con None
+  cast_reduction fx bs names dim kd true con None
   = Ok {| ro_bs := torch_reduce bs nd (kd_truthy kd);
           ro_names := option_map (fun ns => torch_reduce_names ns nd (kd_truthy kd)) names;
           ro_call := LcDim (PTuple nd) kd; ro_post := PostNone |}.
 Proof. exact cast_reduction_tuple. Qed.
 Print Assumptions C09_reduce_bs.
-Theorem C09_reduce_out_of_range : forall (bs : shape) names dim kd con zs,
+Theorem C09_reduce_out_of_range : forall fx (bs : shape) names dim kd con zs,
   user_dims dim = Some zs -> sequence (map (norm_dim (List.length bs)) zs) = None ->
-  cast_reduction bs names dim kd true con None = Raised.
+  cast_reduction fx bs names dim kd true con None = Raised.
 Proof. exact cast_reduction_tuple_out_of_range. Qed.
 Print Assumptions C09_reduce_out_of_range.
 (* every leaf (shape bs ++ feat) reduced over those dims starts with the result batch size *)
@@ -183,67 +133,76 @@ Theorem C09_reduce_names_length : forall (N : Type) (bs : shape) (ns : list N) n
   List.length (torch_reduce_names ns nd kd) = List.length (torch_reduce bs nd kd).
 Proof. exact @names_match_batch. Qed.
 Print Assumptions C09_reduce_names_length.
-(* amin / amax / min / max / prod over one int dim, keepdim=False *)
-Theorem C09_reduce_single : forall (bs : shape) (names : names_t) z d con,
+(* min / max / prod (and amin / amax) over one int dim, keepdim False and True *)
+Theorem C09_reduce_single : forall fx (bs : shape) (names : names_t) z d con,
   norm_dim (List.length bs) z = Some d ->
-  cast_reduction bs names (DimInt z) KdFalse false con None
+  cast_reduction fx bs names (DimInt z) KdFalse false con None
   = Ok {| ro_bs := torch_reduce bs [d] false;
           ro_names := option_map (fun ns => torch_reduce_names ns [d] false) names;
           ro_call := LcDim (PInt (Z.of_nat d)) KdFalse; ro_post := PostNone |}.
 Proof. exact cast_reduction_single. Qed.
 Print Assumptions C09_reduce_single.
-
-(* where /repo departs from torch's reduction (each with a concrete witness) *)
-Definition C09_reduce_names_full_statement : Prop := forall op bs ns dim kd r,
-  List.length ns = List.length bs -> front op bs (Some ns) dim kd = Ok r ->
-  option_map (@List.length _) (ro_names r) = Some (List.length (ro_bs r)).
-Theorem C09_reduce_names_refuted :                                      (* D43 *)
-  exists bs ns r, List.length ns = List.length bs /\
-    front RSingle bs (Some ns) (DimInt 0) KdTrue = Ok r /\ ro_bs r = torch_reduce bs [0] true /\
-    option_map (@List.length _) (ro_names r) <> Some (List.length (ro_bs r)).
-Proof. exact names_keepdim_refuted. Qed.
-Print Assumptions C09_reduce_names_refuted.
-Theorem C09_reduce_names_cumulative_refuted :                           (* D43 *)
-  exists bs ns r, front RCum bs (Some ns) (DimInt 0) KdNoDefault = Ok r /\ ro_bs r = bs /\
-    option_map (@List.length _) (ro_names r) <> Some (List.length (ro_bs r)).
-Proof. exact names_cumulative_refuted. Qed.
-Print Assumptions C09_reduce_names_cumulative_refuted.
-Theorem C09_reduce_dim_none_refuted :                                   (* D44 *)
-  exists bs r, front RTuple bs None DimNone KdNoDefault = Ok r /\
-    ro_bs r <> torch_reduce bs (seq 0 (List.length bs)) false.
-Proof. exact dim_none_refuted. Qed.
-Print Assumptions C09_reduce_dim_none_refuted.
-Theorem C09_reduce_tuple_single_refuted :                               (* D45 *)
-  exists bs r, front RSingle bs None (DimTuple [0; 1]%Z) KdNoDefault = Ok r /\ ro_bs r <> torch_reduce bs [0; 1] false.
-Proof. exact tuple_single_refuted. Qed.
-Print Assumptions C09_reduce_tuple_single_refuted.
-Definition C09_reduce_prod_keepdim_full_statement : Prop := forall (bs : shape) z d,
+Theorem C09_reduce_single_keepdim : forall (bs : shape) (names : names_t) z d con,
   norm_dim (List.length bs) z = Some d ->
-  exists r, front RProd bs None (DimInt z) KdTrue = Ok r /\ ro_bs r = torch_reduce bs [d] true.
-(* every in-range dim but the literal 0 (a negative spelling of dim 0 included): the reduced dim comes back as size 1 *)
-Theorem C09_reduce_prod_keepdim_partial : forall (bs : shape) z d,
-  norm_dim (List.length bs) z = Some d -> z <> 0%Z ->
-  exists r, front RProd bs None (DimInt z) KdTrue = Ok r /\ ro_bs r = torch_reduce bs [d] true /\
+  cast_reduction fixed_reduce bs names (DimInt z) KdTrue false con None
+  = Ok {| ro_bs := torch_reduce bs [d] true;
+          ro_names := option_map (fun ns => torch_reduce_names ns [d] true) names;
+          ro_call := LcDim (PInt (Z.of_nat d)) KdTrue; ro_post := PostNone |}.
+Proof. exact cast_reduction_single_keepdim. Qed.
+Print Assumptions C09_reduce_single_keepdim.
+(* cummin / cummax keep batch size and names *)
+Theorem C09_reduce_cumulative : forall (bs : shape) (names : names_t) z d kd,
+  norm_dim (List.length bs) z = Some d ->
+  front fixed_reduce RCum bs names (DimInt z) kd
+  = Ok {| ro_bs := bs; ro_names := names; ro_call := LcDim (PInt (Z.of_nat d)) KdNoDefault; ro_post := PostNone |}.
+Proof. exact front_cumulative. Qed.
+Print Assumptions C09_reduce_cumulative.
+(* dim=None reduces every batch dim *)
+Theorem C09_reduce_dim_none : forall (bs : shape) (names : names_t) kd,
+  exists r, front fixed_reduce RTuple bs names DimNone kd = Ok r /\
+    ro_bs r = torch_reduce bs (seq 0 (List.length bs)) (kd_truthy kd) /\
+    ro_names r = (if kd_truthy kd then names else None) /\ ro_call r = LcDim PNone kd.
+Proof. exact front_dim_none. Qed.
+Print Assumptions C09_reduce_dim_none.
+(* amin / amax over an int or a tuple of ints *)
+Theorem C09_reduce_aminmax : forall (bs : shape) (names : names_t) dim kd zs nd,
+  user_dims dim = Some zs -> sequence (map (norm_dim (List.length bs)) zs) = Some nd ->
+  front fixed_reduce RAminmax bs names dim kd
+  = Ok {| ro_bs := torch_reduce bs nd (kd_truthy kd);
+          ro_names := option_map (fun ns => torch_reduce_names ns nd (kd_truthy kd)) names;
+          ro_call := LcDim (PTuple nd) (match kd with KdNoDefault => KdFalse | k => k end); ro_post := PostNone |}.
+Proof. exact front_aminmax. Qed.
+Print Assumptions C09_reduce_aminmax.
+(* prod(dim, keepdim=True): the reduced dim comes back as size 1, for every in-range dim *)
+Theorem C09_reduce_prod_keepdim : forall (bs : shape) z d,
+  norm_dim (List.length bs) z = Some d ->
+  exists r, front fixed_reduce RProd bs None (DimInt z) KdTrue = Ok r /\ ro_bs r = torch_reduce bs [d] true /\
             ro_call r = LcDim (PInt (Z.of_nat d)) KdFalse /\ ro_post r = PostUnsqueeze d.
-Proof. exact prod_keepdim_nonzero. Qed.
-Print Assumptions C09_reduce_prod_keepdim_partial.
-Theorem C09_reduce_prod_keepdim_refuted :                               (* D46 *)
-  exists bs, front RProd bs None (DimInt 0) KdTrue = Raised /\ norm_dim (List.length bs) 0 = Some 0.
-Proof. exact prod_keepdim_dim0_refuted. Qed.
-Print Assumptions C09_reduce_prod_keepdim_refuted.
+Proof. exact prod_keepdim. Qed.
+Print Assumptions C09_reduce_prod_keepdim.
+(* every front-end, every dim / keepdim argument: a result that carries names has one name per batch dim *)
+Theorem C09_reduce_names : forall op (bs : shape) ns dim kd r,
+  List.length ns = List.length bs -> front fixed_reduce op bs (Some ns) dim kd = Ok r ->
+  forall ns', ro_names r = Some ns' -> List.length ns' = List.length (ro_bs r).
+Proof. exact front_names_ok. Qed.
+Print Assumptions C09_reduce_names.
 
 (* ------------------------------------------------------------------ non-vacuity: concrete instances of the hypotheses *)
 Example C09_ex_binary :
   let s := [("x", 2%Z); ("n.y", 3%Z); ("n.z", 5%Z)] in let o := [("n.z", 50%Z); ("x", 20%Z); ("n.y", 30%Z)] in
   NoDup (keys_of s) /\ NoDup (keys_of o) /\ s <> [] /\ same_keysb s o = true /\
-  binary_plan Foreach true s (OpTd o) DNone
+  binary_plan true Foreach true s (OpTd o) DNone
   = Ok [("x", (2%Z, RLeaf 20%Z)); ("n.y", (3%Z, RLeaf 30%Z)); ("n.z", (5%Z, RLeaf 50%Z))].
 Proof. repeat split; try reflexivity; try discriminate; repeat constructor; cbn; intuition discriminate. Qed.
 Example C09_ex_diff_keys :
   let s := [("x", 2%Z)] in let o := [("z", 50%Z); ("x", 20%Z)] in
-  same_keysb s o = false /\ o <> [] /\ binary_plan Foreach false s (OpTd o) DNone = Raised
-  /\ binary_plan Foreach false s (OpTd o) (DVal 0%Z) = Ok [("x", (2%Z, RLeaf 20%Z)); ("z", (0%Z, RLeaf 50%Z))]
-  /\ binary_plan Loop false s (OpTd o) DInter = Ok [("x", (2%Z, RLeaf 20%Z))].
+  same_keysb s o = false /\ o <> [] /\ binary_plan true Foreach false s (OpTd o) DNone = Raised
+  /\ binary_plan true Foreach false s (OpTd o) (DVal 0%Z) = Ok [("x", (2%Z, RLeaf 20%Z)); ("z", (0%Z, RLeaf 50%Z))]
+  /\ binary_plan true Loop false s (OpTd o) DInter = Ok [("x", (2%Z, RLeaf 20%Z))]
+  /\ binary_plan true Loop false s (OpTd []) DNone = Raised
+  /\ inplace_plan Foreach true s (OpTd o) = Raised
+  /\ ternary_plan true true [("x", 1%Z); ("y", 2%Z)] (OpTd [("y", 20%Z); ("x", 10%Z)]) (OpTd [("x", 100%Z); ("y", 200%Z)])
+     = Ok [("x", (1%Z, RLeaf 10%Z, RLeaf 100%Z)); ("y", (2%Z, RLeaf 20%Z, RLeaf 200%Z))].
 Proof. repeat split; try reflexivity; discriminate. Qed.
 Example C09_ex_compare :
   let t1 := Node [("a", Leaf 1%Z); ("n", Node [("p", Leaf 2%Z); ("q", Leaf 3%Z)])] in
@@ -260,7 +219,7 @@ Proof. split; [reflexivity|]. cbn. split; reflexivity. Qed.
 Example C09_ex_reduce :
   user_dims (DimTuple [(-1)%Z; 0%Z]) = Some [(-1)%Z; 0%Z] /\
   sequence (map (norm_dim 3) [(-1)%Z; 0%Z]) = Some [2; 0] /\
-  cast_reduction [2; 3; 4] (Some [Some "p"; Some "q"; Some "r"]) (DimTuple [(-1)%Z; 0%Z]) KdNoDefault true true None
+  cast_reduction true [2; 3; 4] (Some [Some "p"; Some "q"; Some "r"]) (DimTuple [(-1)%Z; 0%Z]) KdNoDefault true true None
   = Ok {| ro_bs := [3]; ro_names := Some [Some "q"]; ro_call := LcDim (PTuple [2; 0]) KdNoDefault; ro_post := PostNone |}
   /\ torch_reduce ([2; 3; 4] ++ [7]) [2; 0] false = [3; 7].
 Proof. repeat split; reflexivity. Qed.
